@@ -215,7 +215,7 @@ RectSane(rc, h, w) == /\ 0 <= rc.r1 /\ rc.r1 <= rc.r2 /\ rc.r2 < h
 (***************************************************************************)
 (* Matching a recorded event against an owed one                             *)
 (***************************************************************************)
-ColOk(c, raw) == \A j \in 1..4 : Sent16(c[j], raw[j])
+ColOk(c, raw) == SentHue(c[1], raw[1]) /\ \A j \in 2..4 : Sent16(c[j], raw[j])
 MsOk(ms, q) == NearInt(ms, ClampQ(q, 0, MaxInt))
 UsOk(us, q) == us \in (Floor(q) - 1)..(Floor(q) + 2)
 \* m / s (a decimal mantissa and its scale, as logged) is the rational q to within 2 units of the last
@@ -226,9 +226,11 @@ NumClose(q, m, s) == LET p == Mul(q, I(s))
                          ELSE IF s >= 10 THEN NumClose(q, m \div 10, s \div 10)
                          ELSE FALSE
 OutOk(x, v) ==
-    CASE x.k = "num" -> /\ v.k = "num"
+    CASE x.k = "num" /\ v.k # "other" ->
+                        /\ v.k = "num"
                         /\ (R.strictf => v.f = x.f)
                         /\ NumClose(x.q, v.m, v.s)
+      [] x.k = "num" /\ v.k = "other" -> v.s = "huge" /\ Abs(Floor(x.q)) >= 1073741823    \* too large to log
       [] x.k = "str" -> v.k = "str" /\ v.s = x.s
       [] x.k = "bool" -> v.k = "bool" /\ v.b = x.b
       [] x.k = "none" -> v.k = "none"
